@@ -3,6 +3,7 @@ Rules on the cell system (C10: R10.1 - R10.3, C11: R11.1 - R11.4).  All anchors 
 occupant table, which the surplus table) from the code of the concrete CellOccupancy class.
 """
 import ast
+import re
 from typing import Dict, List, Optional, Set, Tuple
 
 from .core import tolerant, IdiomNotRecognised, AnalysisError, Loc, Report, norm
@@ -761,6 +762,76 @@ def _extracts_every(rets, fn) -> bool:
     return False
 
 
+def _check_surplus_generator(prog: Program, rep: Report, t_s: ClassInfo, fs: ast.AST) -> None:
+    """
+    R10.1-surplus-generator-complete: the surplus tagger's domain is "every surplus unit" only if the generator it calls hands
+    out the whole surplus table.  A guard on the way to a yield of the concrete `yield_surplus` is accepted when it can only skip
+    empty entries (truthiness / length of the iterated entry) or when it reads a parameter that the tagger leaves at an empty
+    default; a guard fed by an argument of the tagger's call removes units from the domain (no other cell tagger treats surplus
+    units, R10.3-surplus-iff-capped); any other guard is undecided.
+    """
+    roles = OccupancyRoles(prog)
+    ys = roles.cls.methods.get("yield_surplus")
+    if ys is None:
+        raise AnalysisError(f"{roles.cls.name}.yield_surplus not found")
+    g = canon(prog, roles.cls, ys)
+    params = [a for a in param_names(g) if a != "self"]
+    defaults = {}
+    pos = g.args.args[len(g.args.args) - len(g.args.defaults):] if g.args.defaults else []
+    for a, d in list(zip(pos, g.args.defaults)) + [(a, d) for a, d in zip(g.args.kwonlyargs, g.args.kw_defaults) if d is not None]:
+        defaults[a.arg] = d
+    calls = [n for n in ast.walk(fs) if isinstance(n, ast.Call) and norm(n.func).endswith("yield_surplus")]
+    passed: Set[str] = set()
+    for c in calls:
+        for i, _ in enumerate(c.args):
+            if i < len(params):
+                passed.add(params[i])
+        passed.update(k.arg for k in c.keywords if k.arg)
+        if any(k.arg is None for k in c.keywords) or any(isinstance(a, ast.Starred) for a in c.args):
+            passed.update(params)
+    iter_vars: Set[str] = set()
+    for n in ast.walk(g):
+        if isinstance(n, (ast.For, ast.comprehension)):
+            iter_vars.update(x.id for x in ast.walk(n.target) if isinstance(x, ast.Name))
+    guards: List[str] = []
+    for n in ast.walk(g):
+        if isinstance(n, (ast.Yield, ast.YieldFrom)):
+            guards.extend(path_conditions(body_without_docstring(g), n) or [])
+        if isinstance(n, ast.comprehension):
+            for i in n.ifs:
+                guards.extend(atoms(i))
+
+    def _empty_default(name: str) -> bool:
+        d = defaults.get(name)
+        return d is not None and ((isinstance(d, (ast.Tuple, ast.List, ast.Set)) and not d.elts) or (isinstance(d, ast.Dict) and not d.keys)
+                                  or (isinstance(d, ast.Call) and norm(d.func) in ("frozenset", "set", "tuple", "list") and not d.args))
+
+    verdict: Optional[bool] = True
+    why = []
+    for c in guards:
+        try:
+            names = {x.id for x in ast.walk(ast.parse(c.replace("not ", "", 1) if c.startswith("not (") else c, mode="eval")) if isinstance(x, ast.Name)}
+        except SyntaxError:
+            names = set(re.findall(r"[A-Za-z_][A-Za-z_0-9]*", c))
+        used_params = names & set(params)
+        bare = c.strip()
+        if bare in iter_vars or bare in {f"len({v}) {op}" for v in iter_vars for op in ("> 0", "!= 0", ">= 1")}:
+            continue        # skips empty entries only
+        if used_params and used_params <= {p_ for p_ in params if p_ not in passed and _empty_default(p_)} and " not in " in c:
+            continue        # membership in a collection that the tagger leaves empty: vacuous
+        if used_params & passed:
+            verdict = False
+            why.append(c)
+        elif verdict is not False:
+            verdict = None
+            why.append(c)
+    rep.ob("R10.1-surplus-generator-complete", verdict, Loc(roles.cls.file, ys.lineno, f"{roles.cls.name}.yield_surplus"),
+           f"guards on the way to a yield: {guards or 'none'}; parameters bound by {t_s.name}: {sorted(passed) or 'none'}"
+           + (f"; restricting: {why}" if why else ""),
+           "the surplus tagger must pair the active unit with every surplus unit of every cell: the generator it calls may not drop "
+           "the surplus units of some cells (no other cell tagger treats surplus units)")
+
+
 def check_tagger_algebra(prog: Program, rep: Report) -> None:
     t_b = prog.class_named("CellBoundingPotentialTagger")
     t_e = prog.class_named("ExcludedCellsTagger")
@@ -811,6 +882,7 @@ def check_tagger_algebra(prog: Program, rep: Report) -> None:
     fs_f = _comprehension_facts(fs)
     rep.ob("R10.1-surplus-all", bool(fs_f["surplus"]) and all(not d[2] for d in fs_f["domains"]), Loc(t_s.file, fs.lineno, f"{t_s.name}.{m}"),
            f"domains {fs_f['domains']}", "the surplus tagger must pair the active unit with every surplus unit")
+    _check_surplus_generator(prog, rep, t_s, fs)
     # veto / boundary taggers: in-state is the active unit only
     for t, f in ((t_v, fv), (t_c, fc)):
         ys = [n for n in ast.walk(f) if isinstance(n, ast.Yield)]
